@@ -7,7 +7,7 @@ using namespace op;
 static mcx::Report R;
 static std::string DIR;
 
-static void run_case(const std::string& kase, const std::vector<Setting>& cli, const std::vector<Setting>& cfg) {
+static void run_case(const std::string& kase, const std::vector<Setting>& cli, const std::vector<Setting>& cfg, const std::string& keyclass = "") {
     std::string parent; if (!cfg.empty()) { parent = DIR + "/parent.cfg"; write_cfg(parent, cfg); }
     ProgramOptions a; std::string err;
     int rc = parse(a, cli, parent, err);
@@ -27,7 +27,7 @@ static void run_case(const std::string& kase, const std::vector<Setting>& cli, c
         for (auto& s : cli) if (s.name == kv.first) given = true;
         for (auto& s : cfg) { if (s.name == kv.first) given = true; for (auto& al : ALIASES) if (s.name == al.alias && kv.first == al.canonical) viaalias = true; }
         std::ifstream f(saved); std::string line, shown; while (std::getline(f, line)) if (line.rfind(kv.first + "=", 0) == 0) shown += line + " ";
-        R.violate("C13/roundtrip/getter=" + kv.first + (viaalias ? "/given-by-alias" : given ? "/given" : "/not-given"), kase,
+        R.violate("C13/roundtrip/" + keyclass + "getter=" + kv.first + (viaalias ? "/given-by-alias" : given ? "/given" : "/not-given"), kase,
                   "original " + kv.second + " reread " + g2[kv.first] + " ; saved line(s): " + (shown.empty() ? "(none)" : shown));
     }
 }
@@ -57,6 +57,13 @@ int main(int argc, char** argv) {
         if (R.mine(kase)) run_case(kase, {{sh.sh, v ? o->v2 : o->v1}}, {});
     }
     R.bound_done("every one-letter option name on the command line x 2 values");
+    // file names with characters that mean something to the config-file syntax, given on the command line (where they are plain characters)
+    for (const char* on : {"output", "InitialDistFile", "Impedance", "tracking"}) for (const char* val : {"run#2.h5", "a=b.dat", "x;y.txt", "[sec]z.h5", "tab\there.txt", " lead.h5", "trail.h5 ", "q\"uoted\".h5", "back\\slash.dat"}) {
+        std::string kase = std::string("filename opt=") + on + " value='" + val + "'";
+        const std::string v = val; const char* cls = v.find('#') != std::string::npos ? "hash" : (v[0] == ' ' || v.back() == ' ') ? "outer-blank" : "other";
+        if (R.mine(kase)) run_case(kase, {{on, val}}, {}, std::string("file-name-with-") + cls + "/");
+    }
+    R.bound_done("file-name options x names containing # = ; [ ] tab, leading / trailing blank, quotes, backslash, given on the command line");
     // aliases in the parent config, alone and against the canonical name on the command line
     for (auto& al : ALIASES) for (int v = 0; v < 2; v++) for (int withcli = 0; withcli < 2; withcli++) {
         const Opt* o = find(al.canonical); const std::string val = v ? o->v2 : o->v1, other = v ? o->v1 : o->v2;
